@@ -116,7 +116,9 @@ def check_delegation(inst, V, ctx, fn_path, feature, checked):
         bad('%s has %d return definitions; expected a single delegation to as_str' % (feature, len(alts))); return
     t = V.strip(alts[0][1])
     if feature in ('Debug', 'Display'):
-        if t[0] != 'call' or t[1] != S.WRITE_STR:
+        # Formatter::pad(s) writes exactly s when no width/precision is requested (plain `{}` / `{:?}`), so it is an
+        # accepted equivalent of write_str for the property's format!("{}", v) == name
+        if t[0] != 'call' or t[1] not in (S.WRITE_STR, 'core::fmt::Formatter::pad'):
             bad('fmt returns %s, required the result of Formatter::write_str(f, as_str(*self))' % show(t)); return
         if peel(V, t[2][0]) != ('arg', 1):
             bad('write_str is called on %s instead of the formatter argument' % show(t[2][0])); return
